@@ -272,8 +272,11 @@ func basicKindName(t types.Type) string {
 }
 
 func gobWriteKind(w *World, t *tables, st *site) string {
-	mu := st.instr.(*ssa.MapUpdate)
-	return gobValueKind(w, t, mu.Value, true)
+	if mu, ok := st.instr.(*ssa.MapUpdate); ok {
+		return gobValueKind(w, t, mu.Value, true)
+	}
+	// a call of a helper that stores under a key parameter: the value the helper's map update stores
+	return gobValueKind(w, t, st.valArg, true)
 }
 
 func gobValueKind(w *World, t *tables, v ssa.Value, enc bool) string {
